@@ -38,6 +38,11 @@ def gen_cfg(rng, nzones=None, max_act=8, ctl_sensor_once=True):
             z["sensor"] = z["actuators"][0]          # a TRV that is both the sensor and an actuator of its zone
         elif r < 0.9:
             z["sensor"] = dev(rng.choice(SENSOR_TYPES[1:]))
+        if z["actuators"] and len(z["actuators"]) < 8 and rng.random() < 0.35:
+            # an actuator has been unbound: its slot stays in the controller's reply, empty (7F FFFFFF), ahead of / between the bound ones
+            z["gaps"] = sorted(rng.sample(range(len(z["actuators"]) + 1), rng.randint(1, min(2, 8 - len(z["actuators"])))))
+            if rng.random() < 0.6:
+                z["gaps"][0] = 0
         zones[f"{i:02X}"] = z
     cfg = {"zones": zones}
     if rng.random() < 0.6:
@@ -74,10 +79,13 @@ def reply(cfg, code, payload):
 
     zones = cfg["zones"]
 
-    def devs(idx, role, ids):
+    def devs(idx, role, ids, gaps=()):
         if not ids:
             return f"{idx}{role}7FFFFFFF"
-        return "".join(f"{idx}{role}00{dev_id_to_hex_id(d)}" for d in ids)
+        slots = [f"{idx}{role}00{dev_id_to_hex_id(d)}" for d in ids]
+        for g in sorted(set(gaps)):          # empty slots among the bound ones
+            slots.insert(min(g, len(slots)), f"{idx}{role}7FFFFFFF")
+        return "".join(slots[:8])
 
     if code == "0005":
         zt = payload[2:4]
@@ -106,7 +114,7 @@ def reply(cfg, code, payload):
             if role == "04":
                 ids = [z["sensor"]] if z.get("sensor") else []
             elif role == "00" or role == CLS[z["class"]]:
-                ids = z["actuators"]
+                return devs(idx, role, z["actuators"], z.get("gaps", ()))
             else:
                 ids = []
         elif role in ("00", "04", "08", "0A", "0B", "11", "09") and int(idx, 16) < 12:
